@@ -40,6 +40,27 @@ class GlobalLock:
         self.f.close()
 
 
+def _work_base():
+    """Scratch base: <verif>/.work, unless an ancestor of it is not searchable by everybody (e.g. a snapshot under /root):
+    the real munged refuses key/socket/pid paths below such a directory, so the binary layers could not run there."""
+    d = VERIF
+    ok = True
+    while True:
+        try:
+            if not (os.stat(d).st_mode & 0o001):
+                ok = False
+        except OSError:
+            ok = False
+        if d == "/":
+            break
+        d = os.path.dirname(d)
+    if ok:
+        return os.path.join(VERIF, ".work")
+    base = "/tmp/verif-work-%d" % os.getuid()
+    os.makedirs(base, exist_ok=True)
+    return base
+
+
 class Ctx:
     def __init__(self, prop, tier, seed, repo, replay=None, level="proof"):
         self.prop = prop
@@ -50,7 +71,7 @@ class Ctx:
         self.level = level
         self.rng = random.Random(seed)
         self.t0 = time.time()
-        self.work = os.path.join(VERIF, ".work", "%s-%d" % (prop, os.getpid()))
+        self.work = os.path.join(_work_base(), "%s-%d" % (prop, os.getpid()))
         shutil.rmtree(self.work, ignore_errors=True)
         os.makedirs(self.work)
         self.obligations = []        # dicts: kind,name,ok,detail
